@@ -25,7 +25,9 @@ RULE = ("topologies with 1-3 axes, every position set containing center (COMODO:
 
 POSL = ["left", "right", "inner", "outer"]
 NAMES = ["x", "xi", "xi_rho", "xi_psi", "x_c", "x_g", "lon", "lonG", "y", "eta_rho", "eta_psi", "yy", "z", "zl",
-         "s_rho", "s_w", "k", "k_u", "padding", "i", "j", "XC", "XG", "depth", "t"]
+         "s_rho", "s_w", "k", "k_u", "padding", "i", "j", "XC", "XG", "depth", "t",
+         # the words of the SGRID attribute grammar are ordinary names too
+         "high", "low", "both", "none", "padding_", "center"]
 
 
 def plen(p, n):
@@ -117,8 +119,27 @@ def gen_sgrid(rng, kind=None, words=None, space=None):
     return {"conv": conv, "sgrid": attrs, "sizes": sizes, "dims": dims, "user": None, "topo": topo}
 
 
+def grammar_word_cases(rng):
+    """A fixed block at every seed: each word of the SGRID grammar used as the name of a node dimension and of
+    a cell dimension, with every padding word, with and without blanks."""
+    out = []
+    for word in ("padding", "high", "low", "both", "none"):
+        for w in PADPOS:
+            for role in ("node", "cell"):
+                for space in (True, False):
+                    sp = " " if space else ""
+                    cell, node = ("xi_rho", word) if role == "node" else (word, "xi_psi")
+                    n = 3
+                    attrs = {"cf_role": "grid_topology", "topology_dimension": 2, "node_dimensions": f"{node} eta_psi",
+                             "face_dimensions": f"{cell}:{sp}{node} (padding:{sp}{w}) eta_rho:{sp}eta_psi (padding:{sp}both)"}
+                    topo = [["X", [["center", cell], [PADPOS[w], node]]], ["Y", [["center", "eta_rho"], ["inner", "eta_psi"]]]]
+                    sizes = [[cell, n], [node, plen(PADPOS[w], n)], ["eta_rho", 4], ["eta_psi", 3]]
+                    out.append({"conv": "SGRID-0.3", "sgrid": attrs, "sizes": sizes, "dims": [], "user": None, "topo": topo})
+    return out
+
+
 def generate(rng, tier):
-    cases = []
+    cases = grammar_word_cases(rng)
     n = 450 if tier == "quick" else 3000
     for i in range(n):
         c = gen_comodo(rng) if i % 2 else gen_sgrid(rng)
